@@ -191,7 +191,11 @@ impl CborCalculator {
             }
         }
 
-        let max_size = tx_size_without_fee + CborCalculator::get_coin_size(&Coin::max_value());
+        // no fixed point (fee and the coin that depends on it keep changing width): both at their widest
+        let mut max_size = tx_size_without_fee + CborCalculator::get_coin_size(&Coin::max_value());
+        if dependable_amount.is_some() {
+            max_size += CborCalculator::get_coin_size(&Coin::max_value());
+        }
         let pessimistic_cost = min_fee_for_size(max_size, fee_algo)?;
         Ok((pessimistic_cost, max_size))
     }
